@@ -17,6 +17,14 @@ from . import common as C
 from . import board as B
 
 
+ALLSQ = "{" + ", ".join(str(i) for i in range(64)) + "}"
+
+
+class RawConsts(dict):
+    """constants whose values are TLA+ expressions written verbatim into the cfg (strings must carry their own quotes)"""
+    raw = True
+
+
 def replay_stream(binary, paths, args):
     bindir = C.build_harness()
     report = os.path.join(C.WORK, "replay-%s-%d.json" % (binary, os.getpid()))
@@ -96,10 +104,7 @@ def coverage(sets_meta, tv, extra):
 def check_c14(tier):
     t0 = time.time()
     prop, seed = "C14", C.seed()
-    consts = {"AllSquares": "{10, 11, 12, 13, 20, 21}", "ImplSquares": "{10, 11, 12, 13, 20, 21}", "Variant": '"fixed"',
-              "MaxRemovals": 2, "MaxMasks": 3 if tier == "quick" else 4}
-    inv = ("INVARIANT LenRight", "INVARIANT OwedRight", "INVARIANT NextAllowed", "INVARIANT RemoveMoveAllowed", "INVARIANT Complete")
-    mc = run_mc("iter-design-%s" % tier, "MCIter.tla", None, RawConsts(consts), inv)
+    mc = iter_design(tier)
     chunks, events = (16, 1500) if tier == "quick" else (64, 6000)
     viol, tv, samples = traces(prop, "TraceIter.tla", "TraceIter.cfg", [("iter", chunks, events)], seed, "iterator")
     cov = coverage([mc], tv, {"samples": samples, "design_model": "MCIter: MoveGenImpl (entry list, cursor, partition) refines MoveGenIter over every call sequence"})
@@ -108,17 +113,13 @@ def check_c14(tier):
                      "MCIter checks the design (MoveGenImpl) against the contract; the code is bound to the contract by TraceIter"], t0)
 
 
-class RawConsts(dict):
-    """constants whose values are TLA+ expressions written verbatim into the cfg (strings must carry their own quotes)"""
-    raw = True
 
 
 # ---------------------------------------------------------------- C19
 def check_c19(tier):
     t0 = time.time()
     prop, seed = "C19", C.seed()
-    consts = RawConsts({"ZeroTag": 0, "Sizes": "{1, 2, 4}", "NTags": 3, "MaxOps": 2 if tier == "quick" else 3, "Emit": "TRUE"})
-    path, meta = C.recordset("cache-%s" % tier, "MCCache.tla", consts, "bfs", None, timeout=3600, tag="CREC")
+    path, meta = cache_set(tier)
     rep, crash = replay_stream("replay_cache", [path], [])
     viol = []
     if crash:
@@ -137,6 +138,43 @@ def check_c19(tier):
 
 
 # ---------------------------------------------------------------- C12 / C13
+def san_sets(tier, seed):
+    sim = {"num": 6 if tier == "quick" else 60, "depth": 80, "seed": seed}
+    specs = [("san-roots-d1", B.K("ROOTS", 1, 0, san=True), "bfs", None),
+             ("san-epw", B.K("EPw", 2, 0, san=True), "bfs", None) if tier != "quick" else
+             ("san-epxw-d", B.K("EPXw", 1, 4, san=True), "bfs", None),
+             ("san-castle", B.K("CASTLE", 0 if tier == "quick" else 1, 1, san=True), "bfs", None),
+             ("san-kpk7w", B.K("KPK7w", 0, 3 if tier == "quick" else 0, san=True), "bfs", None),
+             ("san-sim-%d" % seed, B.K("ROOTS", 999, 0, san=True), "sim", sim),
+             ("san-rand-%d" % seed, B.K("RAND", 999, 8, san=True), "sim", {"num": 20 if tier == "quick" else 300, "depth": 18, "seed": seed})]
+    out = []
+    for name, consts, mode, s in specs:
+        out.append(C.recordset("board-" + name, "MCBoard.tla", consts, mode, s, timeout=4 * 3600))
+    return out
+
+
+def iter_design(tier):
+    consts = RawConsts({"AllSquares": "{10, 11, 12, 13, 20, 21}", "ImplSquares": "{10, 11, 12, 13, 20, 21}", "Variant": '"fixed"',
+                        "MaxRemovals": 2, "MaxMasks": 3 if tier == "quick" else 4})
+    inv = ("INVARIANT LenRight", "INVARIANT OwedRight", "INVARIANT NextAllowed", "INVARIANT RemoveMoveAllowed", "INVARIANT Complete")
+    return run_mc("iter-design-%s" % tier, "MCIter.tla", None, consts, inv)
+
+
+def cache_set(tier):
+    consts = RawConsts({"ZeroTag": 0, "Sizes": "{1, 2, 4}", "NTags": 3, "MaxOps": 2 if tier == "quick" else 3, "Emit": "TRUE"})
+    return C.recordset("cache-%s" % tier, "MCCache.tla", consts, "bfs", None, timeout=3600, tag="CREC")
+
+
+def pregen(tier, seed):
+    """Everything TLC derives from the specification alone (setup)."""
+    san_sets(tier, seed)
+    iter_design(tier)
+    cache_set(tier)
+    C.recordset("uci-all", "MCText.tla", {}, "bfs", None, tag="UREC")
+    C.recordset("geom-all", "MCGeom.tla", RawConsts({"Mode": '"geom"', "SqSel": "{0}"}), "bfs", None, tag="GEOM")
+    C.recordset("sliders-all", "MCGeom.tla", RawConsts({"Mode": '"slider"', "SqSel": ALLSQ}), "bfs", None, tag="SLID")
+
+
 def check_text(prop, tier):
     t0 = time.time()
     seed = C.seed()
@@ -147,16 +185,7 @@ def check_text(prop, tier):
         rep, crash = replay_stream("replay_text", [path], ["--props", "C13"])
     else:
         sets = []
-        sim = {"num": 6 if tier == "quick" else 60, "depth": 80, "seed": seed}
-        specs = [("san-roots-d1", B.K("ROOTS", 1, 0, san=True), "bfs", None),
-                 ("san-epw", B.K("EPw", 2, 4 if tier == "quick" else 0, san=True), "bfs", None) if tier != "quick" else
-                 ("san-epw-k", B.K("EPXw", 1, 4, san=True), "bfs", None),
-                 ("san-castle", B.K("CASTLE", 0 if tier == "quick" else 1, 1, san=True), "bfs", None),
-                 ("san-kpk7w", B.K("KPK7w", 0, 3, san=True), "bfs", None),
-                 ("san-sim-%d" % seed, B.K("ROOTS", 999, 0, san=True), "sim", sim),
-                 ("san-rand-%d" % seed, B.K("RAND", 999, 8, san=True), "sim", {"num": 20 if tier == "quick" else 300, "depth": 18, "seed": seed})]
-        for name, consts, mode, s in specs:
-            path, meta = C.recordset("board-" + name, "MCBoard.tla", consts, mode, s, timeout=4 * 3600)
+        for path, meta in san_sets(tier, seed):
             sets.append(path)
             metas.append(meta)
         rep, crash = replay_stream("replay_text", sets, ["--props", "C12"])
@@ -194,3 +223,74 @@ def check_c07(tier):
     return C.finish(prop, tier, "model_checking", viol, cov,
                     ["memory safety is observed, not specified: debug-assertion build, panics caught, aborts detected by a progress marker",
                      "acceptance of positions that satisfy Necessary but are not valid chess positions is left open (property C07)"], t0)
+
+
+# ---------------------------------------------------------------- C15 / C16 (finite domains) and C20
+
+
+def replay_geom(paths, bmi2, seed):
+    bindir = C.build_harness(bmi2=bmi2)
+    report = os.path.join(C.WORK, "replay-geom-%d-%s.json" % (os.getpid(), "bmi2" if bmi2 else "def"))
+    cat = subprocess.Popen(["zcat"] + paths, stdout=subprocess.PIPE)
+    p = subprocess.run([os.path.join(bindir, "replay_geom"), "--seed", str(seed), "--out", report], stdin=cat.stdout,
+                       stdout=subprocess.PIPE, stderr=subprocess.PIPE, text=True)
+    cat.wait()
+    if p.returncode != 0:
+        return None, {"exit": p.returncode, "stderr": p.stderr[-2000:], "build": "bmi2" if bmi2 else "default"}
+    rep = json.load(open(report))
+    os.unlink(report)
+    return rep, None
+
+
+def check_c15(tier):
+    t0 = time.time()
+    prop, seed = "C15", C.seed()
+    path, meta = C.recordset("sliders-all", "MCGeom.tla", RawConsts({"Mode": '"slider"', "SqSel": ALLSQ}), "bfs", None, tag="SLID")
+    viol, counters, samples = [], {}, []
+    for bmi2 in (False, True):
+        rep, crash = replay_geom([path], bmi2, seed)
+        if crash:
+            viol.append({"property": prop, "kind": "library_crashed_during_replay", "detail": crash})
+            continue
+        viol += [v for v in rep_violations(rep)]
+        for k, v in rep["counters"].items():
+            counters[("bmi2_build_" if bmi2 else "default_build_") + k] = v
+        samples = rep["samples"].get("slider", samples)
+    cov = coverage([meta], {"chunks": 0, "events": 0, "generated": 0, "distinct": 0},
+                   {"samples": samples[:3], "feature_counts": counters, "exhaustive": True,
+                    "exhaustive_within": "64 squares x every subset of the square's rook / bishop rays (TLC enumerated 128 tables); occupancy "
+                                         "off the rays: empty, full and two seeded random patterns per entry; default and +bmi2 builds",
+                    "traces_note": "a stateless lookup has no traces to validate: the implementation is compared entry by entry with the TLC-enumerated table"})
+    return C.finish(prop, tier, "model_checking", viol, cov,
+                    ["the +bmi2 harness build regenerates the tables with build.rs on this CPU (which supports BMI2)",
+                     "irrelevant squares are sampled (4 patterns per entry), not enumerated"], t0)
+
+
+def check_c16(tier):
+    t0 = time.time()
+    prop, seed = "C16", C.seed()
+    p1, m1 = C.recordset("geom-all", "MCGeom.tla", RawConsts({"Mode": '"geom"', "SqSel": "{0}"}), "bfs", None, tag="GEOM")
+    p2, m2 = C.recordset("sliders-all", "MCGeom.tla", RawConsts({"Mode": '"slider"', "SqSel": ALLSQ}), "bfs", None, tag="SLID")
+    rep, crash = replay_geom([p1, p2], False, seed)
+    viol = []
+    if crash:
+        viol.append({"property": prop, "kind": "library_crashed_during_replay", "detail": crash})
+        rep = {"violations": [], "counters": {}, "samples": {}}
+    viol += rep_violations(rep)
+    cov = coverage([m1, m2], {"chunks": 0, "events": 0, "generated": 0, "distinct": 0},
+                   {"samples": rep["samples"].get("geom", [])[:3], "feature_counts": rep["counters"], "exhaustive": True,
+                    "exhaustive_within": "64 squares, 4096 pairs (between, line), 2 colours, 16 step helpers, every occupancy of the squares "
+                                         "relevant to a pawn (plus 3 noise patterns)"})
+    return C.finish(prop, tier, "model_checking", viol, cov, ["noise on irrelevant squares is sampled"], t0)
+
+
+def check_c20(tier):
+    t0 = time.time()
+    prop, seed = "C20", C.seed()
+    chunks, events = (16, 2500) if tier == "quick" else (48, 10000)
+    viol, tv, samples = traces(prop, "TraceBits.tla", "TraceBits.cfg", [("bits", chunks, events)], seed, "bitboard")
+    cov = coverage([], tv, {"samples": samples, "states": max(tv["distinct"], 1), "transitions": max(tv["generated"], 1),
+                            "note": "a stateless algebra: the model-checking run IS the trace validation (TLC evaluates the set-algebra "
+                                    "definition of every logged operation; the iterator is a two-variable state machine)",
+                            "exhaustive_within": "all 64 single squares (from_square / to_square / set) in every chunk; structured and random 64-bit values sampled"})
+    return C.finish(prop, tier, "model_checking", viol, cov, ["64-bit values are logged as lists of squares"], t0)
